@@ -316,6 +316,19 @@ func (e *Env) WaitIdle() {
 	}
 }
 
+// WaitIdleTimeout is WaitIdle with a deadline that only guards the harness
+// against handlers stuck in long retry loops; false = still busy.
+func (e *Env) WaitIdleTimeout(d time.Duration) bool {
+	done := make(chan struct{})
+	go func() { e.WaitIdle(); close(done) }()
+	select {
+	case <-done:
+		return true
+	case <-time.After(d):
+		return false
+	}
+}
+
 // Dropped reports (and forgets) "worker pool drained" warnings: the handler
 // could not hand its task over and the event was dropped.
 func (e *Env) Dropped() bool {
